@@ -281,3 +281,21 @@ def every_iteration_passes(fn, header, block):
             return False
         st.extend(s for s in fn.succs(x) if s is not None)
     return True
+
+
+def setter_field(fx, q, fallback=None):
+    """the qualified name of the field that the one-parameter overload of accessor q stores its argument into (CharInfo::before(int) ->
+    CharInfo::m_before): harnesses address private members by ROLE, so a rename of the member does not misplace their inputs"""
+    for fn in fx.fns_named(q):
+        ps = fn.f.get('params') or []
+        if len(ps) != 1:
+            continue
+        for _, e in fn.elements():
+            if e['k'] == 'BinaryOperator' and e['op'] == '=':
+                t = fn.strip(e['c'][0])
+                r = fn.strip_all_casts(e['c'][1])
+                while r['k'].endswith('CastExpr') and r.get('c'):
+                    r = fn.strip_all_casts(fn.N(r['c'][0]))
+                if t['k'] == 'MemberExpr' and t.get('dk') == 'Field' and any(x.get('vid') == ps[0]['vid'] for x in fn.walk(e['c'][1])):
+                    return t['d']
+    return fallback
